@@ -464,9 +464,14 @@ def _check_writes(case):
         sub = ["sub", "run[2]", "my dir"][gen.pick(case, "dname", 3)]
         path = os.path.join(d, sub, base) if case["subdir"] else os.path.join(d, base)
         contents = []
+        # one of the writes may be of a table without rows: in a header-less format that is a 0-byte file, and it is kept
+        # like any other (seeded change C10p let ensure_path overwrite zero-length files)
+        empty_at = gen.pick(case, "empty-write", 2 * case["k"] + 2)
         for i in range(case["k"]):
-            arr = GA(pd.DataFrame([("chr1", 10 * i + j, 10 * i + j + 5, "w%d_%d" % (i, j)) for j in range(3 + i)],
-                                  columns=["chromosome", "start", "end", "gene"]), {"sample_id": "s"})
+            nrows = 0 if i == empty_at else 3 + i
+            arr = GA(pd.DataFrame([("chr1", 10 * i + j, 10 * i + j + 5, "w%d_%d" % (i, j)) for j in range(nrows)],
+                                  columns=["chromosome", "start", "end", "gene"]).astype({"start": "int64", "end": "int64"}),
+                     {"sample_id": "s"})
             core.ensure_path(path)
             tabio.write(arr, path, case["fmt"])
             with open(path) as fh:
